@@ -139,7 +139,7 @@ type Imports []*Import
 func (imports *Imports) UnmarshalYAML(value *yaml.Node) error {
 	unpacked := []*Import(*imports)
 
-	if value.Tag != "!!seq" {
+	if value.Kind != yaml.SequenceNode || value.Tag != "!!seq" {
 		return fmt.Errorf("expected import sequence")
 	}
 
@@ -166,7 +166,7 @@ type Versions []*Version
 func (versions *Versions) UnmarshalYAML(value *yaml.Node) error {
 	unpacked := []*Version(*versions)
 
-	if value.Tag != "!!map" {
+	if value.Kind != yaml.MappingNode || value.Tag != "!!map" {
 		return fmt.Errorf("expected versions map")
 	}
 
